@@ -50,6 +50,12 @@ class C04(Check):
                 yield {'key': 'mod:%d' % (n_keys + 7), 'parent': 'top', 'parent_node': None, 'items': list(range(n_keys)) + [5, 70, 65540], 'inner': 'per-item',
                        'watchdog_s': 300}
                 continue
+            if tier == 'thorough' and shard == 0 and j == 5:
+                # more than 2**20 groups open at the same time (a flat group_by on a user id), then items for the first ones again
+                n_keys = (1 << 20) + 5
+                yield {'key': 'mod:%d' % (n_keys + 7), 'parent': 'top', 'parent_node': None, 'items': list(range(n_keys)) + [5, 70, 65540, 1048577, 0],
+                       'inner': 'per-item', 'watchdog_s': 600}
+                continue
             name = names[j % len(names)]
             nk = rng.choice([1, 2, 3, 5, 8, 40, 200]) if j % 60 != 6 else rng.choice([300, 1000])
             n = rng.choice([0, 1, 3, 10, 30, 80, 200, 400]) if nk >= 40 else rng.choice([0, 1, 3, 10, 30, 80])
@@ -77,7 +83,7 @@ class C04(Check):
         if len(items) > 60000:
             # the light form for very many groups: every group's per-item output, in source order, and a clean completion
             # (the three-tap observation is quadratic in the number of groups)
-            out.tags += ['top', 'key=mod', 'per-item', 'over-65536-keys']
+            out.tags += ['top', 'key=mod', 'per-item', 'over-65536-keys'] + (['over-2**20-keys'] if len(items) > (1 << 20) else [])
             out.nontrivial = True
             import rx
             from ..common import Snap, subscribe
